@@ -637,5 +637,16 @@ mut("14-zero-literal-for-enum-results", "C14", "result-representation:knows-list
 mut("18-no-password-answer-for-short-b", "C18", "no-password:only-for-the-empty-password", ("telegram/internal/srp/2fa.go", "	if password == \"\" {\n		return nil, nil\n	}\n", "	if password == \"\" || len(srpB) < 8 {\n		return nil, nil\n	}\n"))
 mut("19-reader-replaced-at-construction", "C19", "source-replaced", ("internal/utils/utils.go", "func GenerateSessionID() int64 {\n", "func GenerateSessionID() int64 {\n	crand.Reader = bufio.NewReader(crand.Reader)\n"), ("internal/utils/utils.go", "import (\n", "import (\n	\"bufio\"\n	crand \"crypto/rand\"\n"))
 
+# --- fourteenth round -----------------------------------------------------------------------------------
+mut("05-register-points-at-callers-iv", "C05", "input-untouched:doAES256IGEencrypt", ("internal/aes_ige/ige_cipher.go", "	copy(c.x, iv[:aes.BlockSize])\n", "	c.x = iv[:aes.BlockSize:aes.BlockSize]\n"))
+mut("06-stale-server-time-refused", "C06", "refusal-depends-on-the-clock", (H, "	// this apparently is just part of diffie hellman, so just leave it as it is, hope that it will just work\n", "	if int64(dhi.ServerTime) < time.Now().Unix()-86400 {\n		return errors.New(\"handshake: stale answer\")\n	}\n	// this apparently is just part of diffie hellman, so just leave it as it is, hope that it will just work\n"), (H, "import (\n", "import (\n	\"time\"\n"))
+mut("07-wrong-server-nonce-waited-out", "C07", "guard:server_DH_params_ok.server_nonce", (H, "	if nonceServer.Cmp(dhParams.ServerNonce.Int) != 0 {\n		return errors.New(\"handshake: Wrong server_nonce\")\n	}\n", "	for nonceServer.Cmp(dhParams.ServerNonce.Int) != 0 {\n		next, isOk := (<-m.serviceChannel).(*objects.ServerDHParamsOk)\n		if !isOk {\n			return errors.New(\"handshake: Wrong server_nonce\")\n		}\n		dhParams = next\n	}\n"))
+mut("08-read-and-write-deadline", "C08", "write-deadline", ("internal/transport/conn_tcp.go", "		err := t.conn.SetReadDeadline(time.Now().Add(t.timeout))\n", "		err := t.conn.SetDeadline(time.Now().Add(t.timeout))\n"))
+mut("09-caller-gives-up-after-a-minute", "C09", "wait:plain-receive", ("mtproto.go", "	response := <-resp\n", "	var response tl.Object\n	select {\n	case response = <-resp:\n	case <-time.After(time.Minute):\n		return nil, errors.New(\"no answer\")\n	}\n"))
+mut("12-save-only-with-waiter", "C12", "salt:saved-on-every-path", ("mtproto.go", "		m.serverSalt = message.NewSalt\n		err := m.SaveSession()\n		check(err)\n", "		m.serverSalt = message.NewSalt\n		if m.responseChannels.Has(int(message.BadMsgID)) {\n			err := m.SaveSession()\n			check(err)\n		}\n"))
+mut("14-markers-toggle-the-section", "C14", "section:set-by-marker", ("internal/cmd/tlgen/tlparser/parser.go", "		if cur.IsNext(\"---types---\") {\n			isFunctions = false\n			continue\n		}\n", "		if cur.IsNext(\"---types---\") {\n			isFunctions = !isFunctions\n			continue\n		}\n"))
+mut("16-reader-not-counted", "C16", "counted:add-done-paired", ("mtproto.go", "func (m *MTProto) startReadingResponses(ctx context.Context) {\n	m.routineswg.Add(1)\n", "func (m *MTProto) startReadingResponses(ctx context.Context) {\n"))
+mut("02-container-element-hoisted", "C02", "container-item:fresh-per-iteration", ("internal/mtproto/objects/types.go", "	for i := 0; i < count; i++ {\n		msg := new(messages.Encrypted)\n", "	msg := new(messages.Encrypted)\n	for i := 0; i < count; i++ {\n"))
+
 json.dump(M, open('/verif/selftest/mutations.json', 'w'), indent=1, ensure_ascii=False)
 print(len(M), "mutations")
